@@ -5,6 +5,7 @@ import (
 	"errors"
 	"fmt"
 	"io"
+	"strconv"
 	"strings"
 
 	"github.com/freeconf/yang/node"
@@ -47,11 +48,42 @@ func (self *JSONRdr) Node() (node.Node, error) {
 func (self *JSONRdr) decode() (map[string]interface{}, error) {
 	if self.values == nil {
 		d := json.NewDecoder(self.In)
+		// float64 cannot hold every int64 or uint64
+		d.UseNumber()
 		if err := d.Decode(&self.values); err != nil {
 			return nil, err
 		}
+		jsonExactNumbers(self.values)
 	}
 	return self.values, nil
+}
+
+// jsonExactNumbers replaces the json.Number values left by the decoder: integers
+// too large for float64 to hold exactly become int64 or uint64, every other number
+// becomes the float64 the decoder would have produced by default
+func jsonExactNumbers(v interface{}) interface{} {
+	switch x := v.(type) {
+	case map[string]interface{}:
+		for k, e := range x {
+			x[k] = jsonExactNumbers(e)
+		}
+	case []interface{}:
+		for i, e := range x {
+			x[i] = jsonExactNumbers(e)
+		}
+	case json.Number:
+		if f, err := x.Float64(); err == nil && (f >= 1<<53 || f <= -(1<<53)) {
+			if i, err := x.Int64(); err == nil {
+				return i
+			}
+			if u, err := strconv.ParseUint(x.String(), 10, 64); err == nil {
+				return u
+			}
+		}
+		f, _ := x.Float64()
+		return f
+	}
+	return v
 }
 
 func leafOrLeafListJsonReader(m meta.Leafable, data interface{}) (v val.Value, err error) {
